@@ -486,6 +486,39 @@ def wide_reuse_probe(ctx, exe):
     return info, bad
 
 
+def cross_class_reuse_probe(ctx, exe):
+    """A generated enum converts from and to the integer type of the field it is DEFINED on only.  Naming it on a field of a
+    bigger integer class (10 bits -> u16) has no conversion to use: rustc rejects the crate (E0277), with `try` (TryFrom<u16>)
+    and, for an enum with a catch-all, without (From<u16>).  If the crate compiles, the getter is run on raw values >= 256:
+    whatever it returns, the bits above the enum's integer were dropped before the conversion saw them (seed C07-11 loaded
+    such a field in the enum's integer type)."""
+    V = adef.mk_variant
+    d = {"config": adef.mk_config(register_address_type="u8", default_byte_order="LE"), "objects": [
+        adef.mk_register("Ra", 0, 8, [adef.mk_field("alpha", "uint", 0, 2, conv=adef.mk_enum("Mode", [V("Off"), V("Slow")], use_try=True)),
+                                      adef.mk_field("beta", "uint", 4, 8, conv=adef.mk_enum("Kind", [V("Ka"), V("Other", "catch_all")]))]),
+        adef.mk_register("Rw", 1, 32, [adef.mk_field("widemode", "uint", 6, 16, conv=adef.mk_direct("Mode", True)),
+                                       adef.mk_field("widekind", "uint", 16, 26, conv=adef.mk_direct("Kind"))])]}
+    text = adef.render(d, "dsl")
+    res = gen_common.run_gen(ctx, exe, [{"id": "p", "syntax": "dsl", "text": text, "name": "Dev", "want": ["pretty"]}], tag="xprobe")
+    r = res["p"]
+    if r.get("status") != "ok":
+        return {"generator": gen_common.canon_status(r)}, None        # rejected by the generator: nothing is emitted
+    main = MAIN_HEAD + ('fn main() { let fs = m0::field_sets::Rw::from([0x40, 0x40, 0x00, 0x01]); '
+                        'println!("widemode(0x101) = {:?}", fs.widemode().map(|_| 0).map_err(|_| 1)); println!("widekind(0x100) = {:?}", fs.widekind()); }')
+    l2.write_crate(ctx, "c07xprobe", {"m0": r["pretty"]}, main)
+    ok, out = l2.build(ctx, "c07xprobe")
+    info = {"generator": "ok", "rustc_accepts": ok}
+    bad = None
+    if ok:
+        rc, so, se = l2.run_bin(ctx, "c07xprobe")
+        info["output"] = so.strip().splitlines()
+        bad = {"what": "a generated enum named on a field of a BIGGER integer class type-checks: the getter converts a truncated raw value "
+                       "(10-bit field, enum over u8)", "failing_input": {"syntax": "dsl", "text": text},
+               "implementation": so.strip()[:400], "model": "no conversion from u16 exists for an enum generated over u8: the crate must not compile"}
+    l2.cleanup(ctx, "c07xprobe")
+    return info, bad
+
+
 def cfg_def(enum_a, enum_b, zz="zz: uint as En = 0..2", size_c=8):
     """two generated enums named En under mutually exclusive cfgs (Ra.xx with feature "a", Rb.yy without) and a third,
     ungated register Rc whose field zz reuses the name"""
@@ -927,6 +960,10 @@ def run(ctx):
     if bad:
         violations.append(bad)
     wprobe, bad = wide_reuse_probe(ctx, exe)
+    if bad:
+        violations.append(bad)
+    xprobe, bad = cross_class_reuse_probe(ctx, exe)
+    ctx.log("cross-class reuse probe", xprobe)
     if bad:
         violations.append(bad)
     cprobe, cviol = cfg_reuse_family(ctx, exe)
